@@ -245,7 +245,14 @@ pub fn run_c05(ctx: &Ctx, rep: &mut Report) {
             };
             let nh = ctx.tier.pick(2, 5, 8);
             for k in 0..nh {
-                let len = if k == 0 { rng.range(300, 4200) } else { *rng.pick(&lens) };
+                let len = if k == 0 && li % 8 == 5 {
+                    rep.tally("long_haystacks");
+                    gen::long_length(&mut rng)
+                } else if k == 0 {
+                    rng.range(300, 4200)
+                } else {
+                    *rng.pick(&lens)
+                };
                 let hay = decoy_haystack(&mut rng, &pats, len, ci);
                 for sp in gen::vec_spans(&mut rng, hay.len()).into_iter().take(4) {
                     c05_check_one(rep, &pats, &on, &off, &variant, &hay, sp);
@@ -497,8 +504,13 @@ pub fn run_c10(ctx: &Ctx, rep: &mut Report) {
                 };
                 rep.tally(&format!("variant_{}", variant));
                 let nh = ctx.tier.pick(1, 3, 5);
-                for _ in 0..nh {
-                    let len = *rng.pick(&lens);
+                for k in 0..nh {
+                    let len = if k == 0 && li % 8 == 5 {
+                        rep.tally("long_haystacks");
+                        gen::long_length(&mut rng)
+                    } else {
+                        *rng.pick(&lens)
+                    };
                     let hay = decoy_haystack(&mut rng, &pats, len, ci);
                     let mut spans = gen::vec_spans(&mut rng, hay.len());
                     if hay.len() > 0 {
@@ -654,7 +666,19 @@ pub fn run_c11(ctx: &Ctx, rep: &mut Report) {
                 rep.tally(&format!("variant_{}", cfg.prefilter_variant(&pats)));
                 let nh = ctx.tier.pick(2, 5, 8);
                 for k in 0..nh {
-                    let hay = ci_haystack(&mut rng, &pats, &alpha, if k == 0 { 80 } else { 20 });
+                    let hay = if k == 0 && li % 8 == 5 {
+                        rep.tally("long_haystacks");
+                        let target = gen::long_length(&mut rng);
+                        let mut h = gen::long_haystack(&mut rng, &pats, &alpha, target);
+                        for b in h.iter_mut() {
+                            if rng.chance(1, 3) {
+                                *b ^= 0x20;
+                            }
+                        }
+                        h
+                    } else {
+                        ci_haystack(&mut rng, &pats, &alpha, if k == 0 { 80 } else { 20 })
+                    };
                     let sp = if k % 2 == 0 { (0, hay.len()) } else { gen::span(&mut rng, hay.len()) };
                     if sp.0 > sp.1 {
                         continue;
